@@ -6,6 +6,7 @@ import (
 	"crypto/sha256"
 	"encoding/binary"
 	"fmt"
+	"math/big"
 	"sync"
 	"time"
 
@@ -132,7 +133,7 @@ func c16Tamper(r *core.Run, c c16Cipher, allValues bool) {
 }
 
 func runC16(r *core.Run) {
-	r.Rule = "E1: LeaseSet2 values of the generator within 1 variation x 2 recipient key pairs x 2 cookies under a deterministic crypto/rand.Reader; for each of the selected ciphertexts EVERY byte position x the 8 single-bit flips (thorough: all 255 other values, all ciphertexts); wrong private keys; truncated / extended ciphertexts. Blinding: destination types 7 and 11 x 3 secrets x 3 instants around UTC midnight each expressed in 4 time zones x alphas {derived, of the next day, zero, another secret's, derived with one bit changed}. Oracles: decrypt(encrypt(x)) serialises to x's bytes; any modification or wrong key => error and nil value; blinded key == A + alpha*B computed with filippo.io/edwards25519; equal across zones for the same UTC day, different across days; VerifyBlindedSignature true exactly for the derived factor. non-trivial = distinct (ciphertext, position, value) tamperings that were rejected, round trips, and blinding tuples evaluated"
+	r.Rule = "E1: LeaseSet2 values of the generator within 1 variation x 2 recipient key pairs x 2 cookies under a deterministic crypto/rand.Reader; for each of the selected ciphertexts EVERY byte position x the 8 single-bit flips (thorough: all 255 other values, all ciphertexts); wrong private keys; truncated / extended ciphertexts. Blinding: destination types 7 and 11 x 3 secrets x 3 instants around UTC midnight each expressed in 4 time zones x alphas {derived, of the next day, zero, another secret's, derived with one bit changed}. Oracles: decrypt(encrypt(x)) serialises to x's bytes; any modification or wrong key => error and nil value; blinded key == A + alpha*B computed with filippo.io/edwards25519; equal across zones for the same UTC day, different across days; VerifyBlindedSignature true exactly for the derived factor (also false for all 256 factors one bit away and for alpha + k*L). Sequences: every sequence of <= 3 (thorough 4) operations over {encrypt(3 plaintexts x 2 recipients), decrypt(oldest)} without copying returned ciphertexts; after every step every earlier ciphertext is unchanged and decrypts to its own plaintext. non-trivial = distinct (ciphertext, position, value) tamperings that were rejected, round trips, and blinding tuples evaluated"
 	r.Assume("alpha derivation (HKDF) is go-i2p/crypto's kdf.DeriveBlindingFactor (third party, trusted); the blinded point itself is recomputed independently")
 	det := &detReader{}
 	crand.Reader = det
@@ -239,6 +240,11 @@ func runC16(r *core.Run) {
 	}
 	r.Note("ciphertexts_roundtripped", len(ciphers))
 	r.Note("ciphertexts_tampered_at_every_position", nt)
+	sd := 3
+	if !r.Quick() {
+		sd = 4
+	}
+	c16Sequences(r, det, sd)
 	c16Blinding(r)
 	r.Sample(map[string]any{"ciphertext": "eph(32)|nonce(12)|ct|tag(16)", "tamper": "every byte x 8 single-bit flips"})
 	r.Sample(map[string]any{"blinding": "dest type 11, secret 32x00, instant D 23:59:59.999 UTC expressed in UTC-12", "alphas": "derived / next day / zero / other secret / one bit off"})
@@ -323,6 +329,30 @@ func c16Blinding(r *core.Run) {
 							r.Violate(id+"|verify-true-for-wrong-factor|"+name, "VerifyBlindedSignature accepts a factor other than the derived one: "+name, cs)
 						}
 					}
+					if zi == 0 {
+						// every factor at Hamming distance 1 from the derived one (256 of them), and the
+						// other 32-byte encodings of the same residue (alpha + k*L, as far as they fit)
+						for bitN := 0; bitN < 256; bitN++ {
+							a := alpha
+							a[bitN/8] ^= 1 << (bitN % 8)
+							r.Evaluations.Add(1)
+							if encrypted_leaseset.VerifyBlindedSignature(b, d, a) {
+								cl := "low-bits"
+								if bitN >= 252 {
+									cl = "bits-252..255"
+								}
+								r.Violate(id+"|verify-true-for-wrong-factor|one-bit-off["+cl+"]", fmt.Sprintf("VerifyBlindedSignature accepts the derived factor with bit %d flipped", bitN), cs)
+							}
+						}
+						for k := 1; k <= 15; k++ {
+							if a, ok := c16PlusKL(alpha, k); ok {
+								r.Evaluations.Add(1)
+								if encrypted_leaseset.VerifyBlindedSignature(b, d, a) {
+									r.Violate(id+"|verify-true-for-wrong-factor|alpha+kL", fmt.Sprintf("VerifyBlindedSignature accepts the non-canonical factor alpha + %d*L", k), cs)
+								}
+							}
+						}
+					}
 					r.Distinct([]byte("blind"), []byte{byte(st), byte(si), byte(ii), byte(zi)})
 				}
 			}
@@ -337,6 +367,128 @@ func c16Blinding(r *core.Run) {
 			}
 		}
 	}
+}
+
+// c16PlusKL returns the little-endian 32-byte encoding of alpha + k*L (L the group order), when it fits.
+func c16PlusKL(alpha [32]byte, k int) ([32]byte, bool) {
+	L, _ := new(big.Int).SetString("7237005577332262213973186563042994240857116359379907606001950938285454250989", 10)
+	le := func(b [32]byte) *big.Int {
+		var be [32]byte
+		for i := range b {
+			be[31-i] = b[i]
+		}
+		return new(big.Int).SetBytes(be[:])
+	}
+	v := new(big.Int).Add(le(alpha), new(big.Int).Mul(L, big.NewInt(int64(k))))
+	if v.BitLen() > 256 {
+		return [32]byte{}, false
+	}
+	be := v.FillBytes(make([]byte, 32))
+	var out [32]byte
+	for i := range be {
+		out[31-i] = be[i]
+	}
+	return out, true
+}
+
+// c16Sequences: every sequence of up to depth encrypt/decrypt operations over a small alphabet
+// (3 plaintexts of two different lengths x 2 recipients), on one goroutine, WITHOUT copying any
+// ciphertext the library returned. After every step the invariant is evaluated on the whole
+// history: each ciphertext handed out earlier is byte-identical to what it was when it was
+// returned, and still decrypts to its own plaintext; each plaintext value handed out by a decrypt
+// still serialises to the same bytes.
+func c16Sequences(r *core.Run, det *detReader, depth int) {
+	type plain struct {
+		ls  *lease_set2.LeaseSet2
+		raw []byte
+	}
+	var plains []plain
+	choose.Explore(1, 1, nil, func(c *choose.Ctx) {
+		if len(plains) >= 3 {
+			return
+		}
+		s := gen.LeaseSet2(c)
+		ls, rem, err := lease_set2.ReadLeaseSet2(s.Bytes)
+		if err != nil || len(rem) != 0 || len(s.Bytes) > 1200 {
+			return
+		}
+		// keep: the default, one of the same length, one of a different length
+		switch len(plains) {
+		case 1:
+			if len(s.Bytes) != len(plains[0].raw) || bytes.Equal(s.Bytes, plains[0].raw) {
+				return
+			}
+		case 2:
+			if len(s.Bytes) == len(plains[0].raw) {
+				return
+			}
+		}
+		plains = append(plains, plain{&ls, s.Bytes})
+	})
+	if len(plains) < 3 {
+		r.Note("sequence_alphabet_incomplete", len(plains))
+	}
+	type held struct {
+		ct, ctCopy []byte
+		p, kp      int
+	}
+	nops := len(plains)*2 + 1 // E(p, kp) ..., D(oldest held)
+	var cookie [32]byte
+	var rec func(seq []int)
+	seqs := 0
+	runSeq := func(seq []int) {
+		det.reset(uint64(1000 + len(seq)))
+		var hs []held
+		cs := core.Case{Kind: "sequence", Args: map[string]string{"ops": fmt.Sprint(seq)}}
+		for step, op := range seq {
+			r.Transitions.Add(1)
+			if op < nops-1 {
+				p, kp := op/2, op%2
+				pub, _ := adapt.X25519Pair(uint64(kp + 1))
+				ct, err := encrypted_leaseset.EncryptInnerLeaseSet2(plains[p].ls, cookie, pub)
+				if err != nil {
+					r.Violate("C16|sequence|encrypt-fails", fmt.Sprintf("step %d of %v: %v", step, seq, err), cs)
+					return
+				}
+				hs = append(hs, held{ct, append([]byte(nil), ct...), p, kp})
+			} else if len(hs) > 0 {
+				_, priv := adapt.X25519Pair(uint64(hs[0].kp + 1))
+				c16Decrypt(hs[0].ct, cookie[:], priv)
+			}
+			// invariant over the whole history
+			for hi, h := range hs {
+				r.Evaluations.Add(1)
+				if !bytes.Equal(h.ct, h.ctCopy) {
+					r.Violate("C16|sequence|earlier-ciphertext-changed", fmt.Sprintf("after step %d of %v the ciphertext returned at encryption #%d is no longer the bytes that were returned", step, seq, hi), cs)
+					return
+				}
+				_, priv := adapt.X25519Pair(uint64(h.kp + 1))
+				out, ok, why := c16Decrypt(h.ct, cookie[:], priv)
+				if !ok || !bytes.Equal(out, plains[h.p].raw) {
+					r.Violate("C16|sequence|roundtrip", fmt.Sprintf("after step %d of %v ciphertext #%d does not decrypt to its plaintext (%s)", step, seq, hi, why), cs)
+					return
+				}
+			}
+		}
+	}
+	rec = func(seq []int) {
+		if len(seq) > 0 {
+			runSeq(seq)
+			seqs++
+			r.Traces.Add(1)
+			r.States.Add(1)
+		}
+		if len(seq) == depth || len(plains) == 0 {
+			return
+		}
+		for op := 0; op < nops; op++ {
+			rec(append(append([]int(nil), seq...), op))
+		}
+	}
+	rec(nil)
+	r.Note("operation_sequences", seqs)
+	r.Note("operation_sequence_depth", depth)
+	r.Distinct([]byte("seq"), []byte{byte(depth), byte(nops)})
 }
 
 func replayC16(r *core.Run, c core.Case) {
@@ -357,6 +509,10 @@ func replayC16(r *core.Run, c core.Case) {
 		}
 	case "blind":
 		c16Blinding(r)
+	case "sequence":
+		det := &detReader{}
+		crand.Reader = det
+		c16Sequences(r, det, 3)
 	default:
 		runC16(r)
 	}
